@@ -252,6 +252,11 @@ func c05Map(c *core.Ctx, s *Stage) {
 	if g == nil {
 		return
 	}
+	iterMap(c, s, g, h)
+}
+
+// iterMap: the per-iteration constraint, for the sequential stage and for each fork worker alike.
+func iterMap(c *core.Ctx, s *Stage, g *Goroutine, h *ssa.BasicBlock) {
 	elem, ok := commonIteration(c, s, g, h, 1, 1)
 	out := outChan(s, 0)
 	for _, f := range elem {
@@ -302,6 +307,11 @@ func c05FMap(c *core.Ctx, s *Stage) {
 	if g == nil {
 		return
 	}
+	iterFMap(c, s, g, h)
+}
+
+// iterFMap: the per-iteration constraint, for the sequential stage and for each fork worker alike.
+func iterFMap(c *core.Ctx, s *Stage, g *Goroutine, h *ssa.BasicBlock) {
 	elem, ok := commonIteration(c, s, g, h, 1, 2)
 	out := outChan(s, 0)
 	for _, f := range elem {
@@ -352,6 +362,11 @@ func c05Filter(c *core.Ctx, s *Stage) {
 	if g == nil {
 		return
 	}
+	iterFilter(c, s, g, h)
+}
+
+// iterFilter: the per-iteration constraint, for the sequential stage and for each fork worker alike.
+func iterFilter(c *core.Ctx, s *Stage, g *Goroutine, h *ssa.BasicBlock) {
 	elem, ok := commonIteration(c, s, g, h, 1, 1)
 	out := outChan(s, 0)
 	for _, f := range elem {
@@ -387,6 +402,11 @@ func c05TakeWhile(c *core.Ctx, s *Stage) {
 	if g == nil {
 		return
 	}
+	iterTakeWhile(c, s, g, h)
+}
+
+// iterTakeWhile: the per-iteration constraint, for the sequential stage and for each fork worker alike.
+func iterTakeWhile(c *core.Ctx, s *Stage, g *Goroutine, h *ssa.BasicBlock) {
 	elem, ok := commonIteration(c, s, g, h, 1, 1)
 	out := outChan(s, 0)
 	for _, f := range elem {
@@ -422,6 +442,11 @@ func c05Take(c *core.Ctx, s *Stage) {
 	if g == nil {
 		return
 	}
+	iterTake(c, s, g, h)
+}
+
+// iterTake: the per-iteration constraint, for the sequential stage and for each fork worker alike.
+func iterTake(c *core.Ctx, s *Stage, g *Goroutine, h *ssa.BasicBlock) {
 	elem, ok := commonIterationX(c, s, g, h, 0, 0, true)
 	out := outChan(s, 0)
 	// the budget cell: the captured int parameter
@@ -558,6 +583,11 @@ func c05Partition(c *core.Ctx, s *Stage) {
 	if g == nil {
 		return
 	}
+	iterPartition(c, s, g, h)
+}
+
+// iterPartition: the per-iteration constraint, for the sequential stage and for each fork worker alike.
+func iterPartition(c *core.Ctx, s *Stage, g *Goroutine, h *ssa.BasicBlock) {
 	elem, ok := commonIteration(c, s, g, h, 1, 1)
 	lout, rout := outChan(s, 0), outChan(s, 1)
 	if lout == nil || rout == nil || ir.Same(lout, rout) {
@@ -626,6 +656,19 @@ func foldShape(c *core.Ctx, rule, name string, g *Goroutine, h *ssa.BasicBlock, 
 		if !isEmpty(v) {
 			ok = false
 			c.Fail(rule, name, g.Fn.Pos(), "the accumulator is initialised with %s, expected the monoid's Empty()", short(v))
+			continue
+		}
+		// the Empty() call must be made by this goroutine itself: a value computed once outside and shared by
+		// several goroutines aliases one accumulator for reference-typed monoids
+		own := false
+		for _, st := range p.Events(ir.KCall) {
+			if ir.Same(st.R, v) {
+				own = true
+			}
+		}
+		if !own {
+			ok = false
+			c.Fail(rule, name, g.Fn.Pos(), "the accumulator starts from an Empty() value computed outside this goroutine (shared between workers), expected a fresh m.Empty() per goroutine")
 		}
 	}
 	// iteration: acc' = Combine(acc, x) exactly once per element; unchanged otherwise
@@ -720,6 +763,11 @@ func c05ForEach(c *core.Ctx, s *Stage) {
 	if g == nil {
 		return
 	}
+	iterForEach(c, s, g, h)
+}
+
+// iterForEach: the per-iteration constraint, for the sequential stage and for each fork worker alike.
+func iterForEach(c *core.Ctx, s *Stage, g *Goroutine, h *ssa.BasicBlock) {
 	elem, ok := commonIteration(c, s, g, h, 1, 1)
 	for _, f := range elem {
 		if !f.done && f.p.To != h {
@@ -741,6 +789,11 @@ func c05Void(c *core.Ctx, s *Stage) {
 	if g == nil {
 		return
 	}
+	iterVoid(c, s, g, h)
+}
+
+// iterVoid: the per-iteration constraint, for the sequential stage and for each fork worker alike.
+func iterVoid(c *core.Ctx, s *Stage, g *Goroutine, h *ssa.BasicBlock) {
 	elem, ok := commonIteration(c, s, g, h, 0, 0)
 	for _, f := range elem {
 		if !f.done && f.p.To != h {
